@@ -41,6 +41,8 @@ def cases(tier, seed):
         for w in ("scalar",):
             for t0 in (0.0, 0.3):
                 out.append(dict(type="ic", kind="ode", d=0, n_out=n_out, weight=w, rows=2, t0=t0))
+                # with a parameter batch consumed by the network the initial state is evaluated once per row
+                out.append(dict(type="ic", kind="ode", d=0, n_out=n_out, weight=w, rows=3, t0=t0, param_batch=True))
     for d in B["dims"]:
         for n_out in (1, 2):
             for w in ("scalar", "vector"):
@@ -90,9 +92,22 @@ def run_case(case):
     v = []
     nv = L.nvar_of(kind, d)
     if t == "ic":
-        u, coef, expo = L.make_u(kind, d, n_out, deg=2, salt=2)
+        pbatch = case.get("param_batch", False)
+        u, coef, expo = L.make_u(kind, d, n_out, deg=2, salt=2, input_transform=(lambda inp, p: inp * jnp.reshape(p.eq_params["a"], ())) if pbatch else None)
         params = jinns.parameters.Params(nn_params=u.init_params(), eq_params={"a": jnp.asarray(0.7)})
-        if kind == "ode":
+        if kind == "ode" and pbatch:
+            u0 = np.array([0.4, -0.2][:n_out])
+            w = 1.7
+            arows = np.array([[0.6], [1.3], [-0.8]])[: case["rows"]]
+            loss = L.quiet(jinns.loss.LossODE, u=u, dynamic_loss=None, initial_condition=(case["t0"], jnp.asarray(u0)),
+                           loss_weights=jinns.loss.LossWeightsODE(initial_condition=w), params=params)
+            batch = L.make_batch(kind, L.points(case["rows"], 1), param={"a": jnp.asarray(arows)})
+            per_row = []
+            for a_ in arows[:, 0]:
+                uv = L.jets(coef, expo, np.array([[case["t0"] * a_]]), [()])[()][:, 0]
+                per_row.append(np.sum((uv - u0) ** 2))
+            exp = w * float(np.mean(per_row))
+        elif kind == "ode":
             u0 = np.array([0.4, -0.2][:n_out])
             w = 1.7
             loss = L.quiet(jinns.loss.LossODE, u=u, dynamic_loss=None, initial_condition=(case["t0"], jnp.asarray(u0)),
